@@ -24,8 +24,7 @@ PROPS = {
                                      "one symbolic type in the model: SX vs MX agreement is dynamic only"]),
     "C04": dict(prop_file="props/C04.v", generators=ENG, module="harness.p_dyn",
                 slice="ToFunction.v arguments (names, symbols) + result trees vs F.name_in/out, sizes, numeric values",
-                trusted=DYN_TRUST + ["ToFunction.v (hand-written model of to_function; tied by the compile correspondence)",
-                                     "PARTIAL: the positional-successor clause is checked dynamically, not stated in Coq"]),
+                trusted=DYN_TRUST + ["ToFunction.v (hand-written model of to_function; tied by the compile correspondence)"]),
     "C05": dict(prop_file="props/C05.v", generators=ENG, module="harness.p_dyn",
                 slice="ToFunction.v (more_out) result trees vs the compiled function",
                 trusted=["no axioms (Print Assumptions: closed under the global context)",
